@@ -250,6 +250,11 @@ func c03Vector(c *Ctx, raw stdjson.RawMessage) {
 			c03Run(c, protoCase{Shape: v.Shape, Val: v.Val, Salt: salt, Ptr: ptr})
 		}
 	}
+	// lifting: string lengths that take the sizes of the enclosing records across the varint boundaries
+	for _, n := range strLenSweep(c, r, v.Shape) {
+		c.Case()
+		c03Run(c, protoCase{Shape: v.Shape, Val: v.Val, Salt: strLenSalt + n, Ptr: n%2 == 0})
+	}
 	c.Sample(map[string]any{"shape": v.Shape, "value": v.Val})
 	// lifting: repeated fields of 9/10/11, 20/21, 40/41 and a thousand elements (slice growth: 10, 20, 40, ...)
 	ns := []int{9, 10, 11, 20, 21, 41}
@@ -273,6 +278,26 @@ func c03Vector(c *Ctx, raw stdjson.RawMessage) {
 			c.Extra("impl_policy_match", 1)
 		}
 	}
+}
+
+// strLenSweep: the string lengths run for a vector.  Every shape with a string leaf gets every length of
+// the window around 128 (tags, keys and length prefixes of up to three enclosing records included) when it
+// has a single field, one time in 8 otherwise (always in the thorough tier); the window around 16384 one
+// time in 4 of those.
+func strLenSweep(c *Ctx, r *rng, shape []pField) []int {
+	if !hasStringLeaf(shape) || !(len(shape) == 1 || c.Tier == "thorough" || r.intn(8) == 0) {
+		return nil
+	}
+	var ns []int
+	for n := 104; n <= 130; n++ {
+		ns = append(ns, n)
+	}
+	if r.intn(4) == 0 {
+		for n := 16384 - 26; n <= 16386; n++ {
+			ns = append(ns, n)
+		}
+	}
+	return ns
 }
 
 func c03Replay(c *Ctx, raw stdjson.RawMessage) {
@@ -380,6 +405,11 @@ func c12Vector(c *Ctx, raw stdjson.RawMessage) {
 		}
 		try("ten-byte-varints", l.encodeRecs(v.Wire, wireOpts{padVarints: 9, padTags: 1, padLens: 2}))
 	}
+	// string lengths that take the enclosing records across the varint boundaries (see strLenSweep)
+	for _, n := range strLenSweep(c, r, v.Shape) {
+		c.Case()
+		c12Encode(c, protoCase{Shape: v.Shape, Val: v.Val, Salt: strLenSalt + n, Ptr: n%2 == 0})
+	}
 	c.Sample(map[string]any{"shape": v.Shape, "value": v.Val, "reencodings": sortedKeys(full.Re)})
 }
 
@@ -400,10 +430,9 @@ func c12Replay(c *Ctx, raw stdjson.RawMessage) {
 func c16Run(c *Ctx, k protoCase) {
 	l := lift{k.Salt}
 	x, t := goValue(l, k.Shape, k.Val, k.Ptr)
+	// Marshal only serves as the byte-for-byte reference; that it never fails is C03's business
 	ref, err := proto.Marshal(x)
-	if err != nil {
-		return
-	}
+	refOK := err == nil
 	size := proto.Size(x)
 	want := treeString(l.treeOfAbstract(k.Shape, k.Val))
 	fail := func(w, g string) { c.Diverge("C16", "proto.MarshalTo", w, g, "", k) }
@@ -438,7 +467,7 @@ func c16Run(c *Ctx, k protoCase) {
 					fail("a valid encoding of v", fmt.Sprintf("err=%v bytes=%x", e, buf[:n]))
 					return
 				}
-			} else if !bytes.Equal(buf[:n], ref) {
+			} else if refOK && !bytes.Equal(buf[:n], ref) {
 				fail(hex.EncodeToString(ref), hex.EncodeToString(buf[:n]))
 				return
 			}
@@ -471,6 +500,13 @@ func c16Vector(c *Ctx, raw stdjson.RawMessage) {
 	if sv, did := stretch(v.Shape, v.Val, 11+r.intn(3)); did {
 		c.Case()
 		c16Run(c, protoCase{Shape: v.Shape, Val: sv, Salt: 1})
+	}
+	// string lengths that take the enclosing records across the varint boundaries (see strLenSweep)
+	for _, n := range strLenSweep(c, r, v.Shape) {
+		if (n >= 116 && n < 1000) || (c.Tier == "thorough" && n%8 == 0) { // the destination-length loop is quadratic: little of the 16 KiB window
+			c.Case()
+			c16Run(c, protoCase{Shape: v.Shape, Val: v.Val, Salt: strLenSalt + n, Ptr: n%2 == 0})
+		}
 	}
 	c.Sample(map[string]any{"shape": v.Shape, "value": v.Val})
 }
